@@ -10,7 +10,7 @@ let split_lines (s : string) : string list =
   let n = SS.length s in
   let rec go st i acc =
     if i >= n then L.rev (if st < n then SS.sub s st (n - st) :: acc else acc)
-    else if s.[i] = '\n' then go (i + 1) (i + 1) (SS.sub s st (i + 1 - st) :: acc)
+    else if (SS.get s (i)) = '\n' then go (i + 1) (i + 1) (SS.sub s st (i + 1 - st) :: acc)
     else go st (i + 1) acc in
   go 0 0 []
 let str cl = SS.init (L.length cl) (L.nth cl)
@@ -45,7 +45,7 @@ let parse_unified (text : string) (old_lines : string list) : string DiffUnified
   | h1 :: h2 :: rest when SS.length h1 >= 4 && SS.sub h1 0 4 = "--- " && SS.length h2 >= 4 && SS.sub h2 0 4 = "+++ " ->
     let olda = Array.of_list old_lines in
     let consumed = ref 0 and items = ref [] and ok = ref true in
-    let strip_nl s = if SS.length s > 0 && s.[SS.length s - 1] = '\n' then SS.sub s 0 (SS.length s - 1) else s in
+    let strip_nl s = if SS.length s > 0 && (SS.get s (SS.length s - 1)) = '\n' then SS.sub s 0 (SS.length s - 1) else s in
     let check_old content = (if !consumed >= Array.length olda || olda.(!consumed) <> content then ok := false); incr consumed in
     L.iter (fun l ->
       if SS.length l >= 2 && SS.sub l 0 2 = "@@" then begin
@@ -71,7 +71,7 @@ let parse_unified (text : string) (old_lines : string list) : string DiffUnified
         | _ -> ok := false
       end else if SS.length l >= 1 then begin
         let content = SS.sub l 1 (SS.length l - 1) in
-        match l.[0] with
+        match (SS.get l (0)) with
         | ' ' -> items := DiffUnified.Show (DiffUnified.Ctx, content) :: !items; incr consumed
         | '-' -> items := DiffUnified.Show (DiffUnified.Del, content) :: !items; incr consumed
         | '+' -> items := DiffUnified.Show (DiffUnified.Add, content) :: !items
